@@ -295,6 +295,6 @@ SUBS = {"interp1d": Sub(pred_1d, strategy=cases_1d), "interp2d": Sub(pred_2d, st
 
 
 def jobs(tier):
-    n1, n2 = (400, 100) if tier == "quick" else (10000, 2500)
+    n1, n2 = (400, 100) if tier == "quick" else (40000, 10000)
     return ([{"sub": "interp1d", "n": n1, "shard": i} for i in range(10)] +
             [{"sub": "interp2d", "n": n2, "shard": i} for i in range(6)])
